@@ -22,6 +22,15 @@ pub fn gen_text(t: &mut Tape, lexy: bool, max_depth: usize) -> String {
         let n = *t.choose(&[255usize, 256, 257, 1000, 65_535, 65_536, 65_537, 66_000]);
         let body = "\n".repeat(n);
         let tail = soup::soup(t, 5, true);
+        if t.chance(1, 3) {
+            // one line of more than 64 KiB, a multi-line token opening at its far end and closing at a small column
+            let line = "say hello ".repeat(6_600 + t.pick(300));
+            return match t.pick(3) {
+                0 => format!("{}\"a\nb\" y\n{}", line, tail),
+                1 => format!("{}(c\n\nd)'s y {}", line, tail),
+                _ => format!("{}\"é\n\" {}", line, tail),
+            };
+        }
         return match t.pick(4) {
             0 => format!("say 1 ({}) {}\nsay 2 +", body, tail),
             1 => format!("say \"{}\" {}\nsay 2 +", body, tail),
